@@ -22,7 +22,8 @@ EXPLANATION = (
     "sibling feeds or refuses a delay history.  R4 temporary toggles of the index base (_start_idx) are restored on all exits and the "
     "index base is added exactly once by _process_idx.  R5 helper definitions stored under the same registry key agree across "
     "backends after normalisation (python-syntax helpers: wsum, interp_rows, sigmoid) and each def string agrees with its numpy twin.  "
-    "NOT decided: numerical agreement of library functions, float32/float64 effects, Fortran declarations/line wrapping, "
+    "R6 every python-target hook that renders an indexed assignment (add_var_update, _format_assignment, emit_local_array_assign) emits an "
+    "assignment (in place or functional .at[].set), never an accumulation.  NOT decided: numerical agreement of library functions, float32/float64 effects, Fortran declarations/line wrapping, "
     "diffrax/scipy tolerances, Julia/Matlab helper bodies (foreign syntax; listed as information)."
 )
 RULE_TEXT = ("instances = registry entries and solver overrides resolved from the source; non-trivial = decided by algebraic "
@@ -301,6 +302,57 @@ def r5_helper_agreement(ctx, rid):
         ob.construct, ob.loc = construct, f"{r.module.rel}:{st.lineno}"
 
 
+ASSIGN_HOOKS = ("add_var_update", "_format_assignment", "emit_local_array_assign")
+FOREIGN_BACKENDS = ("JuliaBackend", "MatlabBackend")
+
+
+def r6_assignment_hooks_assign(ctx, rid):
+    """Every backend's hook that renders `lhs[idx] = rhs` must emit an *assignment* of rhs to the addressed slots
+    (in place `lhs[idx] = rhs` or functional `lhs = lhs.at[idx].set(rhs)`); an accumulating form (`.at[].add`, `+=`)
+    agrees with the other backends only while the slots are zero on entry."""
+    import re
+    n = 0
+    for cls in S.backend_classes(ctx):
+        for hook in ASSIGN_HOOKS:
+            f = cls.methods.get(hook)
+            if f is None:
+                continue
+            for c in walk_shallow(f.node):
+                tpl_node = None
+                if isinstance(c, ast.Call) and call_name(c) == "add_code_line" and c.args and isinstance(c.args[0], ast.JoinedStr):
+                    tpl_node = c.args[0]
+                elif isinstance(c, ast.Return) and isinstance(c.value, ast.JoinedStr):
+                    tpl_node = c.value
+                if tpl_node is None:
+                    continue
+                t = fstring_template(tpl_node)
+                if cls.name in FOREIGN_BACKENDS:
+                    ctx.info(rid, f, c, f"{cls.name}: target-language assignment template `{t}` (not parsed)")
+                    continue
+                n += 1
+                tt = re.sub(r"\s+", "", t)
+                holes = re.findall(r"⟨(.*?)⟩", tt)
+                plain = re.fullmatch(r"⟨[^⟩]*⟩(\[⟨[^⟩]*⟩\])?=⟨[^⟩]*⟩", tt)
+                func = re.fullmatch(r"⟨([^⟩]*)⟩=⟨([^⟩]*)⟩\.at\[⟨[^⟩]*⟩\]\.(\w+)\(⟨[^⟩]*⟩\)", tt)
+                if plain:
+                    ctx.ok(rid, f, c, f"{cls.name}.{hook}: plain assignment `{t}`", {"template": t})
+                elif func:
+                    same = func.group(1) == func.group(2)
+                    if func.group(3) == "set" and same:
+                        ctx.ok(rid, f, c, f"{cls.name}.{hook}: functional assignment `{t}`", {"template": t})
+                    else:
+                        ctx.violation(rid, f, c, f"{cls.name}.{hook} emits `{t}`: the addressed slots are "
+                                                 f"{'updated with .' + func.group(3) + '()' if func.group(3) != 'set' else 're-bound to another array'} "
+                                                 f"instead of being assigned (NumPy/Torch overwrite them): results differ whenever the slots are non-zero on entry",
+                                      {"template": t})
+                elif re.search(r"(\+=|-=|\*=)", tt):
+                    ctx.violation(rid, f, c, f"{cls.name}.{hook} emits an augmented assignment `{t}` where the other backends assign", {"template": t})
+                else:
+                    raise AnalysisError(f"{rid}: {f.qual}: unrecognised assignment template `{t}`")
+    if n < 4:
+        raise AnalysisError(f"{rid}: only {n} python-target assignment templates found")
+
+
 def _strip_np(dump: str) -> str:
     # np.einsum vs einsum: the def string relies on `from numpy import einsum`; the twin calls np.einsum
     import re
@@ -313,4 +365,5 @@ RULES = [
     ("C02-R3", r3_history, 3),
     ("C02-R4", r4_index_base, 3),
     ("C02-R5", r5_helper_agreement, 10),
+    ("C02-R6", r6_assignment_hooks_assign, 4),
 ]
